@@ -1065,7 +1065,13 @@ fn c20_conditional() {
                 outer.verify(proof)
             }));
             let accepted = matches!(r, Ok(Ok(())));
-            if accepted != expect { bad.push(format!("{tag}: {name}: outer circuit {} (expected {})", if accepted { "ACCEPTED" } else { "not provable/accepted" }, if expect { "accepted" } else { "rejected" })); }
+            // the oracle is the NATIVE verifier run on the selected proof with the selected verifier data (e.g. an altered cap entry that no query
+            // of this particular proof opens is not observable natively either; the proof-of-work search makes the query positions vary per run)
+            let (sp, sv) = if cond { (pa, va) } else { (pb, vb) };
+            let native = crate::plonk::circuit_data::VerifierCircuitData::<F, PC, D> { verifier_only: sv.clone(), common: data.common.clone() };
+            let native_ok = matches!(catch_unwind(AssertUnwindSafe(|| native.verify(sp.clone()))), Ok(Ok(())));
+            if expect && !native_ok { bad.push(format!("{tag}: {name}: harness expectation wrong: the native verifier rejects the selected proof")); continue; }
+            if accepted != native_ok { bad.push(format!("{tag}: {name}: outer circuit {} but the native verifier {} the selected proof under the selected verifier data", if accepted { "ACCEPTED" } else { "not provable/accepted" }, if native_ok { "accepts" } else { "rejects" })); }
         }
     }
     finish("c20_conditional", cases, bad);
@@ -1525,4 +1531,90 @@ fn c08_lookups() {
         }
     }
     finish("c08_lookups", cases, bad);
+}
+
+// C13: the linear layers of Poseidon against a u128 oracle, on magnitude classes and on states steered to the carry boundaries
+#[test]
+fn c13_linear_layers() {
+    use crate::hash::poseidon::{Poseidon, N_PARTIAL_ROUNDS};
+    let mut bad = Vec::new();
+    let mut cases = 0usize;
+    let p: u128 = 0xFFFF_FFFF_0000_0001;
+    let val = |x: F| (x.0 as u128) % p;
+    let mut s = 0x9E37_79B9_7F4A_7C15u64 ^ seed();
+    let mut rnd = move || { s ^= s << 13; s ^= s >> 7; s ^= s << 17; s };
+    let mds_oracle = |st: &[F; 12]| -> [u128; 12] { core::array::from_fn(|r| {
+        let mut acc = 0u128;
+        for i in 0..12 { acc = (acc + val(st[(i + r) % 12]) * (<F as Poseidon>::MDS_MATRIX_CIRC[i] as u128)) % p; }
+        (acc + val(st[r]) * (<F as Poseidon>::MDS_MATRIX_DIAG[r] as u128)) % p }) };
+    // mds_layer: every element in the same magnitude class [2^k, 2^(k+1)), top of the class, mixed classes, non-canonical representations
+    let mut states: Vec<[F; 12]> = Vec::new();
+    for k in 0..64u32 {
+        let lo = 1u64 << k; let span = lo;   // [2^k, 2^(k+1))
+        states.push(core::array::from_fn(|_| F::from_noncanonical_u64(lo + rnd() % span)));
+        states.push(core::array::from_fn(|_| F::from_noncanonical_u64(lo + (span - 1))));
+        states.push(core::array::from_fn(|j| F::from_noncanonical_u64(if j % 2 == 0 { lo + rnd() % span } else { rnd() % 8 })));
+        states.push(core::array::from_fn(|j| F::from_noncanonical_u64(if j == (k as usize) % 12 { lo + (span - 1) } else { 0 })));
+    }
+    for _ in 0..200 { states.push(core::array::from_fn(|_| F::from_noncanonical_u64(rnd()))); }
+    for st in &states {
+        cases += 1;
+        let got = catch_unwind(AssertUnwindSafe(|| F::mds_layer(st)));
+        let want = mds_oracle(st);
+        match got { Ok(g) => { if (0..12).any(|r| val(g[r]) != want[r]) { bad.push(format!("mds_layer wrong on state {:?}", st.iter().map(|x| x.0).collect::<Vec<_>>())); } }
+                    Err(_) => bad.push(format!("mds_layer PANICKED on state {:?}", st.iter().map(|x| x.0).collect::<Vec<_>>())) }
+    }
+    // mds_partial_layer_fast for every partial round: d = M00*s0 + sum w_hat[i-1]*s_i, result[i] = s_i + s0*v[i-1]
+    let m00 = (<F as Poseidon>::MDS_MATRIX_CIRC[0] + <F as Poseidon>::MDS_MATRIX_DIAG[0]) as u128;
+    let part_oracle = |st: &[F; 12], r: usize| -> [u128; 12] { core::array::from_fn(|i| if i == 0 {
+            let mut acc = val(st[0]) * m00 % p;
+            for j in 1..12 { acc = (acc + val(st[j]) * ((<F as Poseidon>::FAST_PARTIAL_ROUND_W_HATS[r][j - 1] as u128) % p)) % p; }
+            acc
+        } else { (val(st[i]) + val(st[0]) * ((<F as Poseidon>::FAST_PARTIAL_ROUND_VS[r][i - 1] as u128) % p)) % p }) };
+    for r in 0..N_PARTIAL_ROUNDS {
+        let w = <F as Poseidon>::FAST_PARTIAL_ROUND_W_HATS[r];
+        let mut sts: Vec<[F; 12]> = Vec::new();
+        sts.push([F::from_noncanonical_u64(u64::MAX); 12]);
+        sts.push(core::array::from_fn(|_| F::from_noncanonical_u64(rnd())));
+        // steer the 160-bit accumulator: after the 11 w_hat terms its low 128 bits sit just below a multiple of 2^128, so that the LAST
+        // addition (s0 * M00) carries into the high word; and variants where an earlier addition carries
+        for last in [11usize, 10, 5, 1] {
+            for _ in 0..6 {
+                let mut st: [F; 12] = core::array::from_fn(|_| F::from_noncanonical_u64(rnd() | (1 << 63)));
+                // sum of all terms that are added BEFORE term `last` completes, except term `last` itself
+                let mut acc: u128 = 0;   // low 128 bits
+                for j in 1..=last { if j != last { acc = acc.wrapping_add((st[j].0 as u128).wrapping_mul(w[j - 1] as u128)); } }
+                let t = w[last - 1] as u128;
+                if t == 0 { continue; }
+                // choose s_last so that acc + s_last * t lands in (2^128 - t, 2^128 - 1] modulo 2^128
+                let room = 0u128.wrapping_sub(acc).wrapping_sub(1);         // 2^128 - 1 - acc
+                let q = room / t;
+                if q == 0 || q > u64::MAX as u128 { continue; }
+                st[last] = F::from_noncanonical_u64(q as u64);
+                sts.push(st);
+            }
+        }
+        for st in &sts {
+            cases += 1;
+            let got = catch_unwind(AssertUnwindSafe(|| F::mds_partial_layer_fast(st, r)));
+            let want = part_oracle(st, r);
+            match got { Ok(g) => { if (0..12).any(|i| val(g[i]) != want[i]) { bad.push(format!("mds_partial_layer_fast(round {r}) wrong on state {:?}", st.iter().map(|x| x.0).collect::<Vec<_>>())); } }
+                        Err(_) => bad.push(format!("mds_partial_layer_fast(round {r}) PANICKED on state {:?}", st.iter().map(|x| x.0).collect::<Vec<_>>())) }
+        }
+    }
+    // s-box and constant layers on boundary representations
+    let lat = [0u64, 1, 2, 0xFFFF_FFFF, 0x1_0000_0000, 0xFFFF_FFFF_0000_0000, 0xFFFF_FFFF_0000_0001, 0xFFFF_FFFF_0000_0002, u64::MAX, u64::MAX - 1, 1 << 63];
+    for t in 0..60usize {
+        let st0: [F; 12] = core::array::from_fn(|k| F::from_noncanonical_u64(if t < 30 { lat[(t + k) % lat.len()] } else { rnd() }));
+        let mut st = st0; cases += 1;
+        F::sbox_layer(&mut st);
+        let pow7 = |x: u128| { let x2 = x * x % p; let x4 = x2 * x2 % p; x4 * x2 % p * x % p };
+        if (0..12).any(|k| val(st[k]) != pow7(val(st0[k]))) { bad.push(format!("sbox_layer wrong on state {:?}", st0.iter().map(|x| x.0).collect::<Vec<_>>())); }
+        for rc in [0usize, 3, 4, 29] {
+            let mut st = st0; cases += 1;
+            F::constant_layer(&mut st, rc);
+            if (0..12).any(|k| val(st[k]) != (val(st0[k]) + (crate::hash::poseidon::ALL_ROUND_CONSTANTS[k + 12 * rc] as u128) % p) % p) { bad.push(format!("constant_layer(round {rc}) wrong on state {:?}", st0.iter().map(|x| x.0).collect::<Vec<_>>())); }
+        }
+    }
+    finish("c13_linear_layers", cases, bad);
 }
